@@ -62,6 +62,14 @@ def run(ctx):
         cases += dense_cases(ctx)
         q = ctx.tier == "quick"
         cases += S.expr_cases(ctx, 4000 if q else 400000, 500 if q else 50000, 0, 0, 0)
+        # wide expressions: many projections / operators side by side in one expression (65 .. 300 units)
+        rng = ctx.rng
+        units = ["a[*]", "a[]", "a[?b]", "a.*", "a[1:]", "a[*].b", "!a", "a.b[0]", "f(a[*])", "[a[*]]"]
+        for n in ([66, 130] if q else [33, 64, 65, 66, 100, 130, 257, 300]):
+            for sep in (" | ", " || ", " && ", " == "):
+                cases.append(("wide", sep.join(rng.choice(units) for _ in range(n))))
+            cases.append(("wide", "[" + ", ".join(rng.choice(units) for _ in range(n)) + "]"))
+            cases.append(("wide", "a" + "".join(rng.choice(["[*]", "[]", ".b", "[0]", "[?c]", ".*"]) for _ in range(n))))
     recs = S.parse_run(ctx, cases)
     node_kinds = {}
     f16_seen = None
